@@ -157,7 +157,7 @@ fn suite(run: &Run, a: &[f64], n: usize, tag: &str) {
 }
 
 pub fn run(run: &Run) {
-    run.rule("(a) every nonsingular n×n matrix over {0,±1,±2,2^-30} for n≤2 and over {0,±1,2^-30} for n=3 (thorough: all six letters for n=3, {0,±1} for n=4); (b) families minmat, pascal, tridiag, ddom, P·D·T, symmetric-indefinite, graded for every order 1..=20 (32 thorough) × every single-entry deviation × row transpositions × single diagonal sign flips × scalings {2^-60,1,2^40}; (c) deterministic pseudo-random dense and SPD (AᵀA+I) matrices of every order 5..=32; six entry points, (d) SPD matrices with one triangle scaled by 1+δ, δ from 2^-52 to 1e-3; six entry points, right-hand sides with 1,2,3,6 columns and of scale 2^-70, 1e-200, 1e150; singular cases (exact determinant 0 mod 2^61-1) are skipped; non-trivial = routed to Cholesky, needs pivoting, or scaled");
+    run.rule("(a) every nonsingular n×n matrix over {0,±1,±2,2^-30} for n≤2 and over {0,±1,2^-30} for n=3 (thorough: all six letters for n=3, {0,±1} for n=4); (b) families minmat, pascal, tridiag, ddom, P·D·T, symmetric-indefinite, graded for every order 1..=20 (32 thorough) × every single-entry deviation × row transpositions × single diagonal sign flips × scalings {2^-60,1,2^40}; (c) deterministic pseudo-random dense and SPD (AᵀA+I) matrices of every order 5..=32; six entry points, (d) SPD matrices with one triangle scaled by 1+δ, δ from 2^-52 to 1e-3; (e) nearly dependent rows at order 2, 3; (f) sequences of different tiny-scale systems on one thread; six entry points, right-hand sides with 1,2,3,6 columns and of scale 2^-70, 1e-200, 1e150; singular cases (exact determinant 0 mod 2^61-1) are skipped; non-trivial = routed to Cholesky, needs pivoting, or scaled");
     let t30 = 2f64.powi(-30);
     // (a) small matrices
     let l2: Vec<f64> = vec![0.0, 1.0, -1.0, 2.0, -2.0, t30];
@@ -315,7 +315,55 @@ pub fn run(run: &Run) {
             }
         }
     });
-    for r in ["rhs:scaled", "route:symmetric-positive-diagonal", "route:general", "route:tiny-asymmetric-positive-diagonal", "route:symmetric-other"] {
+    // (e) nearly dependent rows (cond 1e4..1e10 at order 2 and 3: closed-form shortcuts such as Cramer's
+    // rule are not backward stable there)
+    {
+        let mut near: Vec<(usize, Vec<f64>)> = vec![(2, vec![1.2969, 0.8648, 0.2161, 0.1441])];
+        for d in [1e-4, 1e-6, 1e-8, 3e-9] {
+            near.push((2, vec![1.0, 1.0, 1.0, 1.0 + d]));
+            near.push((2, vec![3.0, 2.0, 3.0 + 3.0 * d, 2.0]));
+            near.push((2, vec![1.0, 2.0, 0.5 + d, 1.0]));
+            near.push((2, vec![-7.0, 5.0, 1.4, -(1.0 + d)]));
+            near.push((2, vec![1e3, 1e3 - 1.0, 1e3 + 1.0, 1e3 + d]));
+            near.push((3, vec![1.0, 2.0, 3.0, 4.0, 5.0, 6.0, 5.0, 7.0, 9.0 + d]));
+            near.push((3, vec![2.0, -1.0, 0.5, 1.0, 1.0, 1.0, 3.0, 0.0, 1.5 + d]));
+        }
+        run.bound("nearly dependent rows", format!("{} matrices of order 2 and 3 with cond 1e4..1e10, each also transposed and scaled by 2^-20", near.len()));
+        for (n, a) in &near {
+            let n = *n;
+            suite(run, a, n, "nearly-dependent-rows");
+            let t: Vec<f64> = (0..n * n).map(|k| a[(k % n) * n + k / n]).collect();
+            suite(run, &t, n, "nearly-dependent-columns");
+            let sc: Vec<f64> = a.iter().map(|v| v * 2f64.powi(-20)).collect();
+            suite(run, &sc, n, "nearly-dependent-rows*2^-20");
+            run.nontrivial(3);
+        }
+    }
+    // (f) call sequences on one thread: different matrices of the same order one after the other, all of
+    // them tiny (entries below machine epsilon, so that they are "equal" under an absolute tolerance),
+    // or differing in a single interior entry - a solver must not remember the previous system
+    {
+        for n in 2..=6usize {
+            let fam: Vec<Vec<f64>> = vec![minmat(n), tridiag(n, -1.0, 4.0, -1.0), ddom(n), pdt(n, 0).0, lcg_dense(n, n, 4242 + n as u64), pdt(n, 2).0];
+            for sc in [2f64.powi(-60), 1e-17, 1e-100, 1.0] {
+                for a in &fam {
+                    let b: Vec<f64> = a.iter().map(|v| v * sc).collect();
+                    if cond_inf(&b, n).map(|k| k <= 1e10).unwrap_or(false) {
+                        suite(run, &b, n, &format!("sequence of systems of scale {:e}", sc));
+                        run.regime("call-sequence");
+                    }
+                }
+                // single interior entry changed between consecutive calls
+                let mut c = fam[2].iter().map(|v| v * sc).collect::<Vec<f64>>();
+                for k in 0..3 {
+                    let idx = (n * n) / 2;
+                    c[idx] += sc * (k as f64 + 1.0);
+                    suite(run, &c, n, "sequence of systems differing in one entry");
+                }
+            }
+        }
+    }
+    for r in ["call-sequence", "rhs:scaled", "route:symmetric-positive-diagonal", "route:general", "route:tiny-asymmetric-positive-diagonal", "route:symmetric-other"] {
         run.require_regime(r);
     }
     run.assume("normwise backward error ‖AX−B‖∞/(‖A‖∞‖X‖∞+‖B‖∞) ≤ 64n²u with the residual in double-double; the inverse is judged column by column against the identity");
